@@ -48,6 +48,12 @@ CLAIMS = {
  "C08": dict(technique="trace validation: recorded (integer, printed text) events judged by TLC (Trace_Num!ItoaOk) + amplification sweep",
    text="U64toa / I64toa / Dump output for TLC's structural classes (digit count x zero/nine group patterns), every 10^k-1,10^k,10^k+1 and 2^k+-1, 8-digit group patterns at each group position and random values per digit count is validated by TLC (optional '-', then exactly the digits) and re-parsed (kind and value kept); additionally all 10^8 values of each 8-digit group position are swept against a C++ transliteration of the same relation (amplification outside TLC).",
    note="The exhaustive group sweeps are not TLC evaluations; they use a transliteration of Trace_Num!ItoaOk.", ref="4/C08"),
+ "C09": dict(technique="TLC enumeration of byte strings with the canonical quoting (Gen_Quote!SpecOk model-checked) + replay on guard-page and exact-size buffers; non-canonical outputs judged by Render!IsQuotingOf in TLC",
+   text="TLC generates byte strings (every byte value at offsets across 16/32-byte blocks and the tail, pairs and runs of specials, plain strings of every length 0..140) with Render!Quote; internal::Quote and Serialize are run on each from a heap source and, in production builds, from sources ending 0..100 bytes before an unmapped page with two different garbage fillings behind the string: output must be a quoting of the input (canonical, or validated by TLC against the relation IsQuotingOf), at most 6n+2 bytes, identical for both fillings and all placements, with the destination canaries behind 6n+35 intact and no fault.",
+   note="Out-of-bounds accesses are observed by guard pages / ASan.", ref="4/C09, 6"),
+ "C14": dict(technique="TLC enumeration of byte-range pairs and key sets with MemEq/MemSign/KeyLess + replay at page ends",
+   text="Gen_MemCmp (R-model: equality, sign of the first difference with unsigned bytes, map ordering; LessIsStrictOrder model-checked) generates pairs of every length 0..130 that are equal or differ at boundary/middle positions with values on both sides of 0x80, plus key sets; replayed against InlinedMemcmpEq, InlinedMemcmp, FindMember (both overloads), HasMember and lookup after CreateMap with both operands at 13 x 13 distances from an unmapped page in production builds (the in-page fast path), exact-size heap blocks under ASan, static AVX2/SSE and dynamic dispatch.",
+   note="Guard pages observe the page-end clause; the direct InlinedMemcmp calls are compiled only in static-dispatch builds.", ref="4/C14"),
 }
 
 def main():
